@@ -243,11 +243,15 @@ theorem specialChar_ev {ch : Channel} (h : ChInv ch) (chan c2 : Nat) : Ev ch (sp
 theorem setColour_ev (x : Channel) (k : Nat) : Ev x (setColour x k) := by
   unfold setColour; split <;> exact Ev.scalar rfl rfl rfl rfl
 
+theorem setColourMid_ev (x : Channel) (k : Nat) : Ev x (setColourMid x k) := by
+  unfold setColourMid; repeat' split
+  all_goals exact Ev.scalar rfl rfl rfl rfl
+
 theorem midRow_ev {ch : Channel} (h : ChInv ch) (c2 : Nat) : Ev ch (midRow ch c2) := by
   unfold midRow putCharSpace
   have h1 := h.withAttr { ch.attr with flash := false, underline := c2 &&& 1 != 0 }
   have e1 : Ev ch { ch with attr := { ch.attr with flash := false, underline := c2 &&& 1 != 0 } } := Ev.scalar rfl rfl rfl rfl
-  exact (e1.trans (setColour_ev _ _)).trans (putChar_ev (setColour_inv h1 _) _)
+  exact (e1.trans (setColourMid_ev _ _)).trans (putChar_ev (setColourMid_inv h1 _) _)
 
 theorem backgroundAttr_ev {ch : Channel} (h : ChInv ch) (c2 : Nat) : Ev ch (backgroundAttr ch c2) := by
   unfold backgroundAttr putCharSpace
@@ -386,10 +390,12 @@ theorem pacStyle_nev (y : Channel) (chan c2 : Nat) : (pacStyle y chan c2).nev = 
 theorem pacRelocate_nev (x : Channel) (row : Nat) : (pacRelocate x row).nev = x.nev := by
   unfold pacRelocate; split
   · exact fail_nev _ _
-  · simp only []
-    split
-    · show (eraseMemory _ _).nev = _; rw [eraseMemory_nev, eraseMemory_nev]
-    · rfl
+  · split
+    · exact fail_nev _ _
+    · simp only []
+      split
+      · show (eraseMemory _ _).nev = _; rw [eraseMemory_nev, eraseMemory_nev]
+      · rfl
 
 theorem pacStyle_ev {y : Channel} (h : ChInv y) (chan c2 : Nat) : Ev y (pacStyle y chan c2) := by
   unfold pacStyle
@@ -444,7 +450,22 @@ theorem crFinish_nev (z : Channel) (lastRow : Nat) (hm : z.mode ≠ .popOn) : (c
   show ((update z).setPg _ _).nev + 1 = _
   rw [setPg_nev, update_nev']
 
-theorem carriageReturn_ev {ch : Channel} (h : ChInv ch) (chan : Nat) (hm : ch.mode ≠ .popOn) :
+theorem crSync_nev_ge {ch : Channel} (h : ChInv ch) : ch.nev ≤ (crSync ch).nev := by
+  unfold crSync; split
+  · exact (wordBreak_ev h true).mono
+  · rw [update_nev']; exact (wordBreak_ev h true).mono
+
+theorem crFinish_quiet (z : Channel) (lastRow : Nat) (hm : z.mode = .popOn) :
+    (crFinish z lastRow).nev = z.nev ∧ (crFinish z lastRow).hidden = z.hidden ∧
+    (crFinish z lastRow).pg0 = z.pg0 ∧ (crFinish z lastRow).pg1 = z.pg1 := by
+  unfold crFinish
+  have : (z.mode != .popOn) = false := by rw [hm]; rfl
+  rw [this]
+  exact ⟨rfl, rfl, rfl, rfl⟩
+
+/-- CR accounts for its display changes by events when the channel is not in pop-on mode, and - with the repair of
+    finding F45b (no `update()` in pop-on mode) - also in pop-on mode, where it then touches only the hidden page -/
+theorem carriageReturn_ev {ch : Channel} (h : ChInv ch) (chan : Nat) (hm : ch.mode ≠ .popOn ∨ crPopOnNoUpdate = true) :
     Ev ch (carriageReturn ch chan) := by
   unfold carriageReturn
   apply ev_ite; · intro _; exact Ev.refl _
@@ -456,17 +477,65 @@ theorem carriageReturn_ev {ch : Channel} (h : ChInv ch) (chan : Nat) (hm : ch.mo
   · intro _
     exact (wordBreak_ev h true).trans (Ev.scalar rfl rfl rfl rfl)
   · intro _
-    have e1 := (wordBreak_ev h true).mono
-    have h1 := (update_upd ((wordBreak_upd h true).inv h)).inv ((wordBreak_upd h true).inv h)
-    have u1 := (wordBreak_upd h true).trans (update_upd ((wordBreak_upd h true).inv h))
+    have u1 := crSync_upd h
+    have h1 := u1.inv h
     have u2 := crMove_upd h1 (ch.hidden != (ch.mode != .popOn))
     have h2 := u2.inv h1
     have u3 := crClear_upd h2 chan
-    refine Ev.loud ?_
-    rw [crFinish_nev _ _ (by rw [u3.mode, u2.mode, u1.mode]; exact hm)]
-    show _ < (fill _ _ _ _ _).nev + 1
-    rw [fill_nev', crMove_nev, update_nev']
-    omega
+    by_cases hp : ch.mode = .popOn
+    · -- repaired tree, pop-on mode: word break, then only the hidden page and scalars change
+      have hflag : crPopOnNoUpdate = true := by
+        rcases hm with hm | hm
+        · exact absurd hp hm
+        · exact hm
+      have es : crSync ch = wordBreak ch true := by
+        unfold crSync; rw [hflag, hp]; rfl
+      have e1 := wordBreak_ev h true
+      have hb : (ch.hidden != (ch.mode != .popOn)) = ch.hidden := by rw [hp]; cases ch.hidden <;> rfl
+      rw [hb] at u2 h2 u3 ⊢
+      rw [es] at u1 h1 u2 h2 u3 ⊢
+      refine e1.trans ?_
+      -- crMove on the hidden page
+      have hl := pg_len h1 (wordBreak ch true).hidden
+      have q2 : Ev (wordBreak ch true) (crMove (wordBreak ch true) ch.hidden) := by
+        refine Ev.quiet (crMove_nev _ _) u2.hidden ?_
+        unfold crMove
+        simp only []
+        split
+        · rw [← u1.hidden]; exact pg_setPg_other _ _ _
+        · unfold Channel.fail; split <;> rfl
+      have q3 : Ev (crMove (wordBreak ch true) ch.hidden) (crClear (crMove (wordBreak ch true) ch.hidden) chan) := by
+        unfold crClear; exact fill_ev h2 (by simp) _ _
+      have hz : (crClear (crMove (wordBreak ch true) ch.hidden) chan).mode = .popOn := by
+        rw [u3.mode, u2.mode, u1.mode, hp]
+      have q4 := crFinish_quiet (crClear (crMove (wordBreak ch true) ch.hidden) chan)
+        (min (ch.row1 + ch.roll - 1) (15 - 1)) hz
+      exact (q2.trans q3).trans (Ev.scalar q4.1 q4.2.1 q4.2.2.1 q4.2.2.2)
+    · refine Ev.loud ?_
+      rw [crFinish_nev _ _ (by rw [u3.mode, u2.mode, u1.mode]; exact hp)]
+      show _ < (fill _ _ _ _ _).nev + 1
+      rw [fill_nev', crMove_nev]
+      have := crSync_nev_ge h
+      omega
+
+/-- RUx: silent only on a tree without the repair of finding F45a -/
+theorem ruErase_nev : ∀ (ch : Channel), (ruErase ch).nev = ch.nev + (if ruEraseRaisesEvent then 1 else 0) := by
+  intro ch
+  unfold ruErase
+  simp only []
+  split
+  · show ((eraseMemory _ _).setPg _ _).nev + 1 = _
+    rw [setPg_nev, eraseMemory_nev, eraseMemory_nev]
+  · rw [eraseMemory_nev, eraseMemory_nev]; rfl
+
+theorem rollUpCmd_ev {ch : Channel} (roll : Nat) (hflag : ruEraseRaisesEvent = true) : Ev ch (rollUpCmd ch roll) := by
+  unfold rollUpCmd
+  apply ev_ite; · intro _; exact Ev.refl _
+  intro _
+  refine Ev.loud ?_
+  show ch.nev < (ruErase ch).nev
+  rw [ruErase_nev, hflag]
+  simp
 
 theorem setCursor_ev (x : Channel) (c r : Nat) : Ev x (setCursor x c r) := Ev.scalar rfl rfl rfl rfl
 
